@@ -631,3 +631,51 @@ def std_tzx(tap, pauses=None, rng=None):
     for i, b in enumerate(tb):
         out.append(tzx_std(b, pauses[i] if pauses else 1000))
     return b''.join(out)
+
+def tap_duration(tap):
+    """T-states from the first pilot edge to the end of the last block of a TAP file (1 s pause after each block)."""
+    t = 0
+    for b in tap_blocks(tap):
+        t += (8063 if b and b[0] < 128 else 3223) * 2168 + 667 + 735
+        t += sum(2 * (1710 if (x << k) & 0x80 else 855) for x in b for k in range(8))
+        t += 3500000
+    return t
+
+def tzx_duration(tzx):
+    """T-states covered by a TZX file made of the block types this module writes (0x10-0x14, 0x20)."""
+    i = 10
+    t = 0
+    def w(k):
+        return tzx[k] + 256 * tzx[k + 1]
+    def bits(data, zero, one):
+        return sum(2 * (one if (x << k) & 0x80 else zero) for x in data for k in range(8))
+    while i < len(tzx):
+        bid = tzx[i]
+        if bid == 0x10:
+            n = w(i + 3)
+            data = tzx[i + 5:i + 5 + n]
+            t += (8063 if data and data[0] < 128 else 3223) * 2168 + 667 + 735 + bits(data, 855, 1710) + w(i + 1) * 3500
+            i += 5 + n
+        elif bid == 0x11:
+            n = tzx[i + 16] + 256 * tzx[i + 17] + 65536 * tzx[i + 18]
+            data = tzx[i + 19:i + 19 + n]
+            t += w(i + 1) * w(i + 11) + w(i + 3) + w(i + 5) + bits(data, w(i + 7), w(i + 9)) + w(i + 14) * 3500
+            i += 19 + n
+        elif bid == 0x12:
+            t += w(i + 1) * w(i + 3)
+            i += 5
+        elif bid == 0x13:
+            k = tzx[i + 1]
+            t += sum(w(i + 2 + 2 * j) for j in range(k))
+            i += 2 + 2 * k
+        elif bid == 0x14:
+            n = tzx[i + 8] + 256 * tzx[i + 9] + 65536 * tzx[i + 10]
+            data = tzx[i + 11:i + 11 + n]
+            t += bits(data, w(i + 1), w(i + 3)) + w(i + 6) * 3500
+            i += 11 + n
+        elif bid == 0x20:
+            t += w(i + 1) * 3500
+            i += 3
+        else:
+            raise ValueError('unexpected TZX block 0x%02X' % bid)
+    return t
